@@ -152,7 +152,8 @@ def shard(ctx, budget_s):
             if deny4 and rng.random() < 0.2:
                 # the deny list is about IP packets: an ARP request from a listed address is answered like any other
                 e = pkt.Endp(e.cmac, e.smac, rng.choice(deny4), e.sip, fuzz=rng)
-            op = rng.choice([1, 1, 1, 2, 0, 3, 4, 5, 6, 7, 8, 9, 10, 0xFFFF, rng.getrandbits(16)])
+            # the operation is a 16-bit field: only the value 1 is a request (0x0101, 0xFF01, 0x0100 ... are not)
+            op = rng.choice([1, 1, 1, 1, 2, 0, 3, 4, 5, 6, 7, 8, 9, 10, 0xFFFF, 0x0101, 0x0201, 0xFF01, 0x0100, 0x8001, rng.getrandbits(16)])
             tpa = e.sip if rng.random() < 0.6 else gen.rnd_ip4(rng)
             dm = rng.choice([pkt.BCAST, cfg.mac])
             tha = rng.choice([b"\0" * 6, gen.rnd_mac(rng), cfg.mac])
@@ -174,6 +175,11 @@ def shard(ctx, budget_s):
                 target = rng.choice(others)      # unicast to one handled address, soliciting another one
             opts = rng.choice([b"", b"\x01\x01" + e.cmac, b"\x0e\x01" + bytes(6), b"\x01\x01" + e.cmac + b"\x0e\x01" + bytes(6),
                                b"\x0e\x02" + bytes(14) + b"\x01\x01" + e.cmac])
+            if rng.random() < 0.2:
+                # an option area cut short anywhere (a dangling type byte, a source link-layer option missing its last bytes,
+                # a complete option followed by half of the next one): the solicitation is answered all the same
+                full = b"\x0e\x01" + bytes(6) + b"\x01\x01" + e.cmac if rng.random() < 0.5 else b"\x01\x01" + e.cmac + b"\x0e\x01" + bytes(6)
+                opts = full[:rng.randrange(1, len(full))]
             code = rng.choice([0, 0, 0, 0, 1, 255])
             sol = rng.random() < 0.5
             if sol and (not cfg.selfips or target not in cfg.selfips):
